@@ -195,6 +195,12 @@ def check_case(case, ctx):
         except Exception as e:
             ctx.count('build_failed:' + type(e).__name__)
             return
+    if case.get('edited'):
+        with monitor.suspended():
+            case = dict(case, edits_applied=netgen.random_edits(c, rng))
+            CUR['case'] = case
+            net = refsem.net_of(c)
+        ctx.count('edited_circuits')
     sh = refsem.structural_hash(net)
     style = case['label_style']
     ctx.count('labels:' + style)
@@ -252,7 +258,8 @@ def gen_case(rng, spec):
     style = rng.choice(['plain', 'digits', 'keyword', 'keyword', 'brackets', 'at'])
     net = netgen.rand_net(rng, shape=shape, max_in=5, max_g=spec.get('max_g', 12), max_arity=5, label_style=style)
     return {'kind': 'random', 'shape': shape, 'label_style': style, 'net': netgen.describe(net),
-            'rseed': rng.getrandbits(32), 'shuffle': rng.random() < 0.4, 'file': rng.random() < 0.2, 'layouts': 2}
+            'rseed': rng.getrandbits(32), 'shuffle': rng.random() < 0.4, 'file': rng.random() < 0.2, 'layouts': 2,
+            'edited': rng.random() < 0.3}
 
 
 def run_shard(spec, ctx):
